@@ -73,6 +73,21 @@ def mutate(rng, net):
     gates = [n for n, (t, fi, o) in net["nodes"].items() if t in ref.GATES]
     if not gates:
         return net
+    wide = [n for n in gates if net["nodes"][n][0] in ("and", "nor", "or", "nand") and len(net["nodes"][n][1]) >= 2]
+    if wide and rng.random() < 0.4:
+        # a difference that shows for few valuations only: AND the output cone with a wide conjunction of inputs
+        ins = ref.inputs(net)
+        outs = [o for o in ref.outputs(net) if net["nodes"][o][0] in ref.GATES]
+        if len(ins) >= 3 and outs:
+            o = rng.choice(outs)
+            t, fi, flag = net["nodes"][o]
+            k = "rare_" + o
+            inner = "rarein_" + o
+            if k not in net["nodes"] and inner not in net["nodes"]:
+                net["nodes"][k] = ["and", list(ins), False]
+                net["nodes"][inner] = [t, list(fi), False]
+                net["nodes"][o] = ["xor", [inner, k], flag]
+                return net
     n = rng.choice(gates)
     t, fi, o = net["nodes"][n]
     if t in ("buf", "not"):
